@@ -43,12 +43,13 @@ EVENTS = {
     'inc2': ('buf', b'include("inc2.conf")'), 'incdq': ('buf', b'include("dqinc.conf")'),
     'incself': ('buf', b'include("self.conf")'), 'incmiss': ('buf', b'include("nope.conf")'), 'incdir': ('buf', b'include("d")'),
     'okfp': ('fp', b'i = 6'), 'synfp': ('fp', b'i = ='),
+    'fperr': ('fperr', b'\nbogus'),        # a stream whose read fails right after the last token, which is itself an error
     'oksecf': ('file', b'sec.conf'), 'incsecbad': ('buf', b'include("secbad.conf")'),     # a single section entered from a named source
     'reinit': ('reinit', None), 'switch': ('switch', None),
 }
 KEEP = ('ok', 'okf', 'okfp', 'oksecf', 'reinit', 'switch')     # events with a lasting, specified effect on the stores
 ORDER = ['ok', 'okf', 'syn', 'synf', 'dq', 'dqf', 'dq0', 'sq', 'sqf', 'cm', 'cmf', 'esc', 'range', 'inc1', 'inc1f', 'inc2', 'incdq',
-         'incself', 'incmiss', 'incdir', 'oksecf', 'incsecbad', 'okfp', 'synfp', 'reinit', 'switch']
+         'incself', 'incmiss', 'incdir', 'oksecf', 'incsecbad', 'okfp', 'synfp', 'fperr', 'reinit', 'switch']
 
 PROBES = {
     'P1-plain': b'i = 8 l += {2} m { x = 3 }',
@@ -79,6 +80,8 @@ def history_lines(hist):
             lines.append('parse %s %s' % (cur, enc(payload)))
         elif kind == 'fp':
             lines.append('parse_fp %s %s' % (cur, enc(payload)))
+        elif kind == 'fperr':
+            lines.append('parse_fperr %s %s' % (cur, enc(payload)))
         elif kind == 'reinit':
             lines.append('free %s' % cur)
             lines.append('init %s E8 0' % cur)
@@ -132,7 +135,7 @@ def observations(res, hist):
     want = 2   # two init answers
     for ev in hist:
         k = EVENTS[ev][0]
-        want += {'buf': 1, 'file': 1, 'fp': 1, 'reinit': 2, 'switch': 0}[k]
+        want += {'buf': 1, 'file': 1, 'fp': 1, 'fperr': 1, 'reinit': 2, 'switch': 0}[k]
     seen = 0
     for idx, l in enumerate(res.lines):
         if l.startswith('r '):
